@@ -45,7 +45,7 @@ func (h transactionsResourceHandler) BuildDataset(opts common.RepositoryHandlerB
 		ret = ret.Where("timestamp <= ?", opts.PIT)
 	}
 
-	if h.store.ledger.HasFeature(features.FeatureAccountMetadataHistory, "SYNC") && opts.PIT != nil && !opts.PIT.IsZero() {
+	if h.store.ledger.HasFeature(features.FeatureTransactionMetadataHistory, "SYNC") && opts.PIT != nil && !opts.PIT.IsZero() {
 		selectDistinctTransactionMetadataHistories := h.store.newScopedSelect().
 			DistinctOn("transactions_id").
 			ModelTableExpr(h.store.GetPrefixedRelationName("transactions_metadata")).
